@@ -231,9 +231,9 @@ def activeFromEntrypoints (nodes : List NodeD) (es : List Edge) (eps : List Name
   let r := eps ++ eps.flatMap (descendants es nodes.length)
   (nodes.map (·.name)).filter fun n => r.contains n
 
-/-- worklist of `_active_from_selection`: a stack (`worklist.pop()` takes the LAST element);
-`fuel` bounds the number of pops. A gate's target that is already needed is skipped together with
-its descendants, exactly as in the code. -/
+/-- worklist of `_active_from_selection` (after the repair: a gate's targets are always expanded
+with their descendants, so the result is the closure under "predecessors" and "targets of gates and
+their descendants", independent of traversal order). `fuel` bounds the number of pops. -/
 def selectionWalk (nodes : List NodeD) (es : List Edge) (active : List Name) :
     Nat → List Name → List Name → List Name
   | 0, _, needed => needed
@@ -250,8 +250,8 @@ def selectionWalk (nodes : List NodeD) (es : List Edge) (active : List Name) :
           match findNode nodes name with
           | some nd =>
             if nd.isGate then
-              (nd.targetNames.filter fun t => active.contains t && !needed'.contains t).flatMap fun t =>
-                t :: ((descendants es nodes.length t).filter fun d => !needed'.contains d)
+              (nd.targetNames.filter fun t => active.contains t).flatMap fun t =>
+                t :: (descendants es nodes.length t)
             else []
           | .none => []
         selectionWalk nodes es active fuel (rest ++ ps ++ gateExtra) needed'
